@@ -28,12 +28,12 @@ Proof.
   all: try (destruct pr; congruence).
 Qed.
 
-Lemma ob_killexit par s tk : upr (us s) = PRun -> ukil (us s) = true -> t_kill s = Some tk -> In (tk + psig par) (obligations par s).
+Lemma ob_killexit par s tk : upr (us s) = PRun -> ukil (us s) = true -> at_kill s = Some tk -> In (tk + psig par) (obligations par s).
 Proof. intros H1 H2 H3. ob_tac. Qed.
-Lemma ob_wait par s te : uw (us s) = WWait -> upr (us s) = PZombie -> t_exit s = Some te -> In (te + psig par) (obligations par s).
+Lemma ob_wait par s te : uw (us s) = WWait -> upr (us s) = PZombie -> at_exit s = Some te -> In (te + psig par) (obligations par s).
 Proof. intros H1 H2 H3. ob_tac. Qed.
-Lemma ob_rdv par s tw : uw (us s) = WRecv -> send_ready (uh (us s)) = true -> t_wrecv s = Some tw ->
-  In (Z.max tw (t_h s) + psig par) (obligations par s).
+Lemma ob_rdv par s tw : uw (us s) = WRecv -> send_ready (uh (us s)) = true -> at_wrecv s = Some tw ->
+  In (Z.max tw (at_h s) + psig par) (obligations par s).
 Proof. intros H1 H2 H3. ob_tac. Qed.
 Lemma ob_self par s : self_exit (pu par) = true -> upr (us s) = PRun -> In (pE par + psig par) (obligations par s).
 Proof. intros H1 H2. ob_tac. Qed.
@@ -41,19 +41,19 @@ Proof. intros H1 H2. ob_tac. Qed.
 (* ---- with a deadline and a positive kill delay nothing lasts: X = pC + pK *)
 Record tinv2 (par : tpar) (s : tstate) : Prop := {
   q_run : upr (us s) = PRun -> now s <= pC par + pK par + 8 * psig par;
-  q_texit : t_exit s <> None -> oz (t_exit s) <= pC par + pK par + 8 * psig par /\ oz (t_exit s) <= now s;
-  q_zomb : upr (us s) = PZombie -> t_exit s <> None /\ now s <= oz (t_exit s) + psig par;
-  q_twr : t_wrecv s <> None -> oz (t_wrecv s) <= pC par + pK par + 9 * psig par /\ oz (t_wrecv s) <= now s;
-  q_th0 : uh (us s) = HSel1 -> t_h s = 0;
-  q_th : uh (us s) <> HDone -> t_h s <= pC par + pK par + 7 * psig par;
-  q_herr : uh (us s) = HSendErr -> t_kill s <> None /\ t_h s = oz (t_kill s);
-  q_recv : uw (us s) = WRecv -> t_wrecv s <> None /\ now s <= pC par + pK par + 10 * psig par
+  q_texit : at_exit s <> None -> oz (at_exit s) <= pC par + pK par + 8 * psig par /\ oz (at_exit s) <= now s;
+  q_zomb : upr (us s) = PZombie -> at_exit s <> None /\ now s <= oz (at_exit s) + psig par;
+  q_twr : at_wrecv s <> None -> oz (at_wrecv s) <= pC par + pK par + 9 * psig par /\ oz (at_wrecv s) <= now s;
+  q_th0 : uh (us s) = HSel1 -> at_h s = 0;
+  q_th : uh (us s) <> HDone -> at_h s <= pC par + pK par + 7 * psig par;
+  q_herr : uh (us s) = HSendErr -> at_kill s <> None /\ at_h s = oz (at_kill s);
+  q_recv : uw (us s) = WRecv -> at_wrecv s <> None /\ now s <= pC par + pK par + 10 * psig par
 }.
 
 Lemma tinv2_init par : wf_tpar par -> 0 < pK par -> tinv2 par tinit.
 Proof.
   intros (H1 & H2 & H3 & H4 & H5) HK.
-  constructor; cbn [tinit uinit us now t_h t_ctx t_exit t_wrecv t_sig t_arm t_fire t_kill t_ret uw uh upr uctx utm uintr ukil usigerr oz];
+  constructor; cbn [tinit uinit us now at_h at_ctx at_exit at_wrecv at_sig at_arm at_fire at_kill at_ret uw uh upr uctx utm uintr ukil usigerr oz];
     intros; try discriminate; try congruence; repeat split; try reflexivity; try lia.
 Qed.
 
@@ -68,7 +68,7 @@ Proof.
   destruct (ctl par s R) as (C1 & C2 & C3 & C4 & C5 & C6 & C7 & C8).
   destruct I as [Inow I0 I1 Isel1 Isig Itsig Iafter Itarm Itm0 Itm1 Itm2 Isel2 Ihk Ipre Itk].
   destruct Q as [Qrun Qtexit Qzomb Qtwr Qth0 Qth Qherr Qrecv].
-  constructor; cbn [advance us now t_h t_ctx t_exit t_wrecv t_sig t_arm t_fire t_kill t_ret].
+  constructor; cbn [advance us now at_h at_ctx at_exit at_wrecv at_sig at_arm at_fire at_kill at_ret].
   - (* still running: the helper's chain forces the kill *)
     intro Ep. pose proof (C1 Ep) as Ew.
     destruct (uh (us s)) eqn:Eh.
@@ -122,9 +122,9 @@ Proof.
   destruct (ustep (pu par) l (us s)) as [u'|] eqn:Eu; [|discriminate]. injection E as <-.
   destruct I as [Inow I0 I1 Isel1 Isig Itsig Iafter Itarm Itm0 Itm1 Itm2 Isel2 Ihk Ipre Itk].
   destruct Q as [Qrun Qtexit Qzomb Qtwr Qth0 Qth Qherr Qrecv].
-  destruct s as [u n th tc te tw ts ta tf tk tr]. cbn [us now t_h t_ctx t_exit t_wrecv t_sig t_arm t_fire t_kill t_ret] in *.
+  destruct s as [u n th tc te tw ts ta tf tk tr]. cbn [us now at_h at_ctx at_exit at_wrecv at_sig at_arm at_fire at_kill at_ret] in *.
   destruct u as [w h pr cx tm ir kl se sn rc]. cbn [uw uh upr uctx utm uintr ukil usigerr usent urecv] in *.
-  destruct l; cbn [time_guard us now t_h t_ctx t_exit t_wrecv t_sig t_arm t_fire t_kill t_ret] in Eg; inv_ustep Eu;
+  destruct l; cbn [time_guard us now at_h at_ctx at_exit at_wrecv at_sig at_arm at_fire at_kill at_ret] in Eg; inv_ustep Eu;
     cbn [uw uh upr uctx utm uintr ukil usigerr usent urecv] in *;
     repeat match type of Eg with context [match ?x with _ => _ end] => destruct x eqn:? end; try discriminate; try congruence;
     repeat match goal with H : _ && _ = true |- _ => apply andb_true_iff in H; destruct H end;
@@ -132,7 +132,7 @@ Proof.
     repeat match goal with H : (_ <=? _) = true |- _ => apply Z.leb_le in H end;
     subst; cbn iota in Ipre; try (match type of Ipre with _ = TNone => subst end);
     cbn [stamp set_w set_h set_pr set_tm is_after_sig is_armed uw uh upr uctx utm uintr ukil usigerr usent urecv];
-    constructor; cbn [us now t_h t_ctx t_exit t_wrecv t_sig t_arm t_fire t_kill t_ret uw uh upr uctx utm uintr ukil usigerr usent urecv oz set_w set_h set_pr set_tm is_armed is_after_sig];
+    constructor; cbn [us now at_h at_ctx at_exit at_wrecv at_sig at_arm at_fire at_kill at_ret uw uh upr uctx utm uintr ukil usigerr usent urecv oz set_w set_h set_pr set_tm is_armed is_after_sig];
     try solve [fin].
   all: try solve [destruct pr; try discriminate; fin].
 Qed.
@@ -150,7 +150,7 @@ Qed.
 (* ------------------------------------------------------------------ the windows, for every timed run *)
 
 (* the interrupt is sent between the expiry of the context and three slacks later *)
-Lemma ta_interrupt_window par s ts : wf_tpar par -> treach par s -> t_sig s = Some ts ->
+Lemma ta_interrupt_window par s ts : wf_tpar par -> treach par s -> at_sig s = Some ts ->
   pC par <= ts <= pC par + 3 * psig par.
 Proof.
   intros W R E. destruct (tinv_reach par s W R) as [_ _ _ _ _ Itsig _ _ _ _ _ _ _ _ _].
@@ -158,7 +158,7 @@ Proof.
 Qed.
 
 (* the kill is sent killDelay after the context expired, at most seven slacks late *)
-Lemma ta_kill_window par s tk : wf_tpar par -> treach par s -> t_kill s = Some tk ->
+Lemma ta_kill_window par s tk : wf_tpar par -> treach par s -> at_kill s = Some tk ->
   pC par + pK par <= tk <= pC par + pK par + 7 * psig par.
 Proof.
   intros W R E. destruct (tinv_reach par s W R) as [_ _ _ _ _ _ _ _ _ _ _ _ _ _ Itk].
@@ -183,13 +183,13 @@ Qed.
 
 (* and when it has returned, it did so by then *)
 Lemma ta_return_time par s r : wf_tpar par -> has_ctx (pu par) = true -> kd_pos (pu par) = true ->
-  treach par s -> t_ret s = Some r -> r <= pC par + pK par + 10 * psig par.
+  treach par s -> at_ret s = Some r -> r <= pC par + pK par + 10 * psig par.
 Proof.
   intros W Hc Hk R. revert r. induction R as [|m s s' R IH E]; intros r Hr; [discriminate|].
   destruct m as [l|d]; cbn [tstep] in E.
   - unfold tdisc in E. destruct (time_guard par l s); [|discriminate].
     destruct (ustep (pu par) l (us s)) as [u'|] eqn:Eu; [|discriminate]. injection E as <-.
-    destruct l; cbn [stamp t_ret] in Hr; try (now apply IH).
+    destruct l; cbn [stamp at_ret] in Hr; try (now apply IH).
     injection Hr as <-. cbn [stamp now].
     apply (ta_returns_by par s W Hc Hk R).
     unfold ustep in Eu. destruct (uw (us s)); try discriminate. reflexivity.
@@ -203,22 +203,22 @@ Definition early (par : tpar) : Prop :=
 Record tinv3 (par : tpar) (s : tstate) : Prop := {
   e_nd : w_done (uw (us s)) = false ->
          uh (us s) = HSel1 /\ uctx (us s) = false /\ now s <= pE par + 3 * psig par /\
-         uintr (us s) = false /\ usigerr (us s) = false /\ ukil (us s) = false /\ t_sig s = None /\ t_kill s = None;
+         uintr (us s) = false /\ usigerr (us s) = false /\ ukil (us s) = false /\ at_sig s = None /\ at_kill s = None;
   e_run : upr (us s) = PRun -> now s <= pE par + psig par;
-  e_tex : t_exit s <> None -> pE par <= oz (t_exit s) <= pE par + psig par /\ oz (t_exit s) <= now s;
-  e_zomb : upr (us s) = PZombie -> t_exit s <> None /\ now s <= oz (t_exit s) + psig par;
-  e_twr : t_wrecv s <> None -> pE par <= oz (t_wrecv s) <= pE par + 2 * psig par /\ oz (t_wrecv s) <= now s;
-  e_recv : uw (us s) = WRecv -> t_wrecv s <> None /\ now s <= oz (t_wrecv s) + psig par;
-  e_th0 : uh (us s) = HSel1 -> t_h s = 0;
+  e_tex : at_exit s <> None -> pE par <= oz (at_exit s) <= pE par + psig par /\ oz (at_exit s) <= now s;
+  e_zomb : upr (us s) = PZombie -> at_exit s <> None /\ now s <= oz (at_exit s) + psig par;
+  e_twr : at_wrecv s <> None -> pE par <= oz (at_wrecv s) <= pE par + 2 * psig par /\ oz (at_wrecv s) <= now s;
+  e_recv : uw (us s) = WRecv -> at_wrecv s <> None /\ now s <= oz (at_wrecv s) + psig par;
+  e_th0 : uh (us s) = HSel1 -> at_h s = 0;
   e_done : w_done (uw (us s)) = true ->
            uw (us s) = WDoneWait /\ uintr (us s) = false /\ usigerr (us s) = false /\ ukil (us s) = false /\
-           t_sig s = None /\ t_kill s = None /\ t_ret s <> None /\ pE par <= oz (t_ret s) <= pE par + 3 * psig par
+           at_sig s = None /\ at_kill s = None /\ at_ret s <> None /\ pE par <= oz (at_ret s) <= pE par + 3 * psig par
 }.
 
 Lemma tinv3_init par : wf_tpar par -> tinv3 par tinit.
 Proof.
   intros (H1 & H2 & H3 & H4 & H5).
-  constructor; cbn [tinit uinit us now t_h t_ctx t_exit t_wrecv t_sig t_arm t_fire t_kill t_ret uw uh upr uctx utm uintr ukil usigerr oz w_done];
+  constructor; cbn [tinit uinit us now at_h at_ctx at_exit at_wrecv at_sig at_arm at_fire at_kill at_ret uw uh upr uctx utm uintr ukil usigerr oz w_done];
     intros; try discriminate; try congruence; repeat split; try reflexivity; try lia.
 Qed.
 
@@ -232,18 +232,18 @@ Proof.
   destruct Q as [End Erun Etex Ezomb Etwr Erecv Eth0 Edone].
   assert (RUN : upr (us s) = PRun -> now s + d <= pE par + psig par).
   { intro Ep. destruct (OB _ (ob_self par s Hs Ep)). lia. }
-  assert (ZOMB : upr (us s) = PZombie -> now s + d <= oz (t_exit s) + psig par).
+  assert (ZOMB : upr (us s) = PZombie -> now s + d <= oz (at_exit s) + psig par).
   { intro Ep. destruct (Ezomb Ep) as (A & B).
     assert (Ew : uw (us s) = WWait).
     { destruct (uw (us s)) eqn:Ew; try reflexivity; rewrite (C3 ltac:(discriminate)) in Ep; discriminate. }
     destruct (OB _ (ob_wait par s _ Ew Ep (oz_some _ A))). lia. }
-  assert (RECV : uw (us s) = WRecv -> now s + d <= oz (t_wrecv s) + psig par).
+  assert (RECV : uw (us s) = WRecv -> now s + d <= oz (at_wrecv s) + psig par).
   { intro Ew. destruct (Erecv Ew) as (A & B). destruct (Etwr A) as (T1 & T2).
     assert (Hnd : w_done (uw (us s)) = false) by (rewrite Ew; reflexivity).
     destruct (End Hnd) as (Eh & _). pose proof (Eth0 Eh) as T0.
     assert (Sr : send_ready (uh (us s)) = true) by (rewrite Eh; reflexivity).
     destruct (OB _ (ob_rdv par s _ Ew Sr (oz_some _ A))). lia. }
-  constructor; cbn [advance us now t_h t_ctx t_exit t_wrecv t_sig t_arm t_fire t_kill t_ret].
+  constructor; cbn [advance us now at_h at_ctx at_exit at_wrecv at_sig at_arm at_fire at_kill at_ret].
   - intro Hnd. destruct (End Hnd) as (A1 & A2 & A3 & A4). repeat split; try tauto.
     destruct (uw (us s)) eqn:Ew; try discriminate.
     + destruct (upr (us s)) eqn:Ep.
@@ -269,9 +269,9 @@ Proof.
   destruct (time_guard par l s) eqn:Eg; [|discriminate].
   destruct (ustep (pu par) l (us s)) as [u'|] eqn:Eu; [|discriminate]. injection E as <-.
   destruct Q as [End Erun Etex Ezomb Etwr Erecv Eth0 Edone].
-  destruct s as [u n th tc te tw ts ta tf tk tr]. cbn [us now t_h t_ctx t_exit t_wrecv t_sig t_arm t_fire t_kill t_ret] in *.
+  destruct s as [u n th tc te tw ts ta tf tk tr]. cbn [us now at_h at_ctx at_exit at_wrecv at_sig at_arm at_fire at_kill at_ret] in *.
   destruct u as [w h pr cx tm ir kl se sn rc]. cbn [uw uh upr uctx utm uintr ukil usigerr usent urecv] in *.
-  destruct l; cbn [time_guard us now t_h t_ctx t_exit t_wrecv t_sig t_arm t_fire t_kill t_ret] in Eg; inv_ustep Eu;
+  destruct l; cbn [time_guard us now at_h at_ctx at_exit at_wrecv at_sig at_arm at_fire at_kill at_ret] in Eg; inv_ustep Eu;
     cbn [uw uh upr uctx utm uintr ukil usigerr usent urecv] in *;
     repeat match type of Eg with context [match ?x with _ => _ end] => destruct x eqn:? end; try discriminate; try congruence;
     repeat match goal with H : _ && _ = true |- _ => apply andb_true_iff in H; destruct H end;
@@ -279,7 +279,7 @@ Proof.
     repeat match goal with H : (_ <=? _) = true |- _ => apply Z.leb_le in H end;
     subst; cbn [w_done] in *;
     cbn [stamp set_w set_h set_pr set_tm is_after_sig is_armed uw uh upr uctx utm uintr ukil usigerr usent urecv];
-    constructor; cbn [us now t_h t_ctx t_exit t_wrecv t_sig t_arm t_fire t_kill t_ret uw uh upr uctx utm uintr ukil usigerr usent urecv oz set_w set_h set_pr set_tm is_armed is_after_sig w_done];
+    constructor; cbn [us now at_h at_ctx at_exit at_wrecv at_sig at_arm at_fire at_kill at_ret uw uh upr uctx utm uintr ukil usigerr usent urecv oz set_w set_h set_pr set_tm is_armed is_after_sig w_done];
     try solve [fin].
   all: try solve [destruct pr; try discriminate; pose proof (C1 eq_refl); subst; cbn [w_done] in *; fin].
 Qed.
@@ -296,17 +296,17 @@ Qed.
    timed run no signal is ever sent, the result is Wait's own, and waitOrStop returns within three
    slacks of the exit *)
 Lemma ta_early_unaffected par s : wf_tpar par -> early par -> treach par s ->
-  uintr (us s) = false /\ usigerr (us s) = false /\ ukil (us s) = false /\ t_sig s = None /\ t_kill s = None /\
+  uintr (us s) = false /\ usigerr (us s) = false /\ ukil (us s) = false /\ at_sig s = None /\ at_kill s = None /\
   (w_done (uw (us s)) = false -> now s <= pE par + 3 * psig par) /\
   (w_done (uw (us s)) = true ->
-   uw (us s) = WDoneWait /\ exists r, t_ret s = Some r /\ pE par <= r <= pE par + 3 * psig par).
+   uw (us s) = WDoneWait /\ exists r, at_ret s = Some r /\ pE par <= r <= pE par + 3 * psig par).
 Proof.
   intros W He R. destruct (tinv3_reach par s W He R) as [End Erun Etex Ezomb Etwr Erecv Eth0 Edone].
   destruct (w_done (uw (us s))) eqn:Ew.
   - destruct (Edone eq_refl) as (A1 & A2 & A3 & A4 & A5 & A6 & A7 & A8).
     split; [exact A2|]. split; [exact A3|]. split; [exact A4|]. split; [exact A5|]. split; [exact A6|].
     split; [discriminate|]. intros _. split; [exact A1|].
-    exists (oz (t_ret s)). split; [now apply oz_some | exact A8].
+    exists (oz (at_ret s)). split; [now apply oz_some | exact A8].
   - destruct (End eq_refl) as (A1 & A2 & A3 & A4 & A5 & A6 & A7 & A8).
     split; [exact A4|]. split; [exact A5|]. split; [exact A6|]. split; [exact A7|]. split; [exact A8|].
     split; [intros _; exact A3 | discriminate].
@@ -319,8 +319,8 @@ Lemma fg_tpar_wf u now_ eps D e d sg :
   0 <= sg -> 0 <= ctx_deadline now_ eps D -> 0 <= e -> 0 <= d -> kd_pos u = true -> wf_tpar (fg_tpar u now_ eps D e d sg).
 Proof.
   intros H1 H2 H3 H4 H5. unfold wf_tpar, fg_tpar. cbn [psig pC pE pD pK pu].
-  repeat split; try assumption.
-  - intros _. rewrite fg_kill_delay_grace. pose proof (grace_ge_min (D - now_)). assert (0 < min_grace) by reflexivity. lia.
+  split; [exact H1|]. split; [exact H2|]. split; [exact H3|]. split; [exact H4|]. split; [|intros _; exact H5].
+  intros _. rewrite fg_kill_delay_grace. pose proof (grace_ge_min (D - now_)). assert (0 < min_grace) by reflexivity. lia.
 Qed.
 
 (* a foreground command under RunT: the interrupt is sent grace_reserve grace periods before the
@@ -330,9 +330,9 @@ Lemma ta_runt_windows u now_ eps D e d sg s :
   0 <= sg -> 0 <= ctx_deadline now_ eps D -> 0 <= e -> 0 <= d -> has_ctx u = true -> kd_pos u = true ->
   treach (fg_tpar u now_ eps D e d sg) s ->
   let g := grace (D - now_) in
-  (forall ts, t_sig s = Some ts -> D + eps - grace_reserve * g <= ts <= D + eps - grace_reserve * g + 3 * sg) /\
-  (forall tk, t_kill s = Some tk -> D + eps - (grace_reserve - 1) * g <= tk <= D + eps - (grace_reserve - 1) * g + 7 * sg) /\
-  (forall r, t_ret s = Some r -> r <= D + eps - (grace_reserve - 1) * g + 10 * sg).
+  (forall ts, at_sig s = Some ts -> D + eps - grace_reserve * g <= ts <= D + eps - grace_reserve * g + 3 * sg) /\
+  (forall tk, at_kill s = Some tk -> D + eps - (grace_reserve - 1) * g <= tk <= D + eps - (grace_reserve - 1) * g + 7 * sg) /\
+  (forall r, at_ret s = Some r -> r <= D + eps - (grace_reserve - 1) * g + 10 * sg).
 Proof.
   intros H1 H2 H3 H4 Hc Hk R g. pose proof (fg_tpar_wf u now_ eps D e d sg H1 H2 H3 H4 Hk) as W.
   destruct (grace_arith now_ eps D) as [A _]. fold g in A.
@@ -353,7 +353,7 @@ Example ta_run_example :
   exists s, texec par [MDelay 810; MDisc LCtxFire; MDelay 10; MDisc LSelCtx; MDelay 10; MDisc LSignal; MDelay 10; MDisc LArm;
                        MDelay 110; MDisc LTimerFire; MDelay 10; MDisc LSelTimer; MDelay 10; MDisc LKill; MDelay 10;
                        MDisc LKillExit; MDelay 10; MDisc LWaitRet; MDelay 10; MDisc LRendezvous] tinit = Some s
-            /\ t_sig s = Some 830 /\ t_kill s = Some 970 /\ t_ret s = Some 1000 /\ uw (us s) = WDoneCtx.
+            /\ at_sig s = Some 830 /\ at_kill s = Some 970 /\ at_ret s = Some 1000 /\ uw (us s) = WDoneCtx.
 Proof.
   split; [unfold wf_tpar; cbn; repeat split; intros; try lia; reflexivity|].
   eexists. split; [vm_compute; reflexivity|]. repeat split.
